@@ -6,9 +6,10 @@ import StraxModel.Lemmas.Contract
   is now (`Model/Contract.lean`): D2 fixed (the constructor compares the declared dtype with the
   dtype of the data), chunk results dtype-checked in `_fix_output`, label and dtype checked per
   yielded chunk by the down-chunking plugin.  The `_old` theorems are `decide`-witnesses of what the
-  code did before each of these fixes.  Storage: `rejected_not_stored` is stated against the abstract
-  saver protocol of `Contract.process` (the crash-level statement is C04's); what is NOT guaranteed
-  there — the open finding F3 — is stated as `gap_in_target_stored_eager_counterexample`.
+  code did before each of these fixes.  Storage: `rejected_not_stored_partial` & co. are stated against the saver
+  protocol of the SINGLE-THREAD processor (`Contract.process`, tied by the check component
+  `saver_protocol`; the crash-level statement is C04's); what is NOT guaranteed — the threaded
+  processor in eager mode, open finding F3 / D21 — is `gap_in_target_stored_eager_counterexample`.
 -/
 namespace Strax.C12
 open Strax Strax.Contract
@@ -320,14 +321,20 @@ theorem missing_time_fields_rejected (d : String) (dt : RDtype) (kindIsDict : Bo
 example : hasTimeFields [⟨none, "time", "<i8"⟩, ⟨none, "length", "<i4"⟩] = false := by decide
 example : hasTimeFields dtDeclared = true := by decide
 
-/-! ### 8. rejected ⇒ not stored -/
+/-! ### 8. rejected ⇒ not stored (single-thread order of events; `_partial`: the property also
+quantifies over the threaded processor, for which this half is covered by the pipeline oracle only
+and is FALSE in eager mode — finding F3 / D21, counterexample below) -/
 
-/-- The saver protocol of the single-thread processor, abstractly (`Contract.process`): if
-processing ends with an exception — an output was rejected, or the consumer-side check of a
-delivered chunk failed — every saver is closed with the exception recorded, so the data is not
-visible as valid; and a rejected output always ends processing with an exception.
-(That a saver closed with an exception is invisible to `is_stored`/loaders across crashes is C04.) -/
-theorem rejected_not_stored {σ α} (check : σ → α → Except Err σ) (st : σ) (outs : List (Except Err α)) (sv : Saver α) :
+/-- PARTIAL (processor = single_thread).  The saver protocol of the single-thread processor
+(`Contract.process`, tied to the real `SingleThreadProcessor` + `get_iter` by the check component
+`saver_protocol`): every output is first handed to the saver, then to the consumer, whose own check
+may raise; any exception closes the saver with the exception recorded.  Then: (i) if processing
+ends with an exception the data is not visible as valid; (ii) a rejected output always ends
+processing with an exception; (iii) everything delivered is a prefix of the accepted outputs.
+Not covered: the threaded processor (savers in their own threads) — see
+`gap_in_target_stored_eager_counterexample`.  That a saver closed with an exception stays
+invisible to `is_stored`/loaders across crashes is C04. -/
+theorem rejected_not_stored_partial {σ α} (check : σ → α → Except Err σ) (st : σ) (outs : List (Except Err α)) (sv : Saver α) :
     (∀ e, (process check st outs sv).2.2 = some e → (process check st outs sv).1.visible = false) ∧
     ((∃ e, Except.error e ∈ outs) → ∃ e, (process check st outs sv).2.2 = some e) ∧
     ((process check st outs sv).2.1.map Except.ok <+: outs) :=
@@ -335,9 +342,9 @@ theorem rejected_not_stored {σ α} (check : σ → α → Except Err σ) (st : 
    process_error_of_rejected check outs st sv,
    process_delivered_ok check outs st sv⟩
 
-/-- composed with `_fix_output`: if any result of the plugin is refused, nothing of that data
-type stays visible and the caller gets an exception -/
-theorem rejected_output_not_stored (p : Plugin) (d : String) (results : List (Result × Option (Int × Int)))
+/-- PARTIAL (single_thread), composed with `_fix_output`: if any result of the plugin is refused,
+nothing of that data type stays visible and the caller gets an exception -/
+theorem rejected_output_not_stored_partial (p : Plugin) (d : String) (results : List (Result × Option (Int × Int)))
     (check : Unit → CChunk → Except Err Unit) (sv : Saver CChunk)
     (hbad : ∃ r ∈ results, ∃ e, fixOne p d r.1 r.2 none none = .error e) :
     let outs := results.map fun r => fixOne p d r.1 r.2 none none
@@ -350,17 +357,35 @@ theorem rejected_output_not_stored (p : Plugin) (d : String) (results : List (Re
   obtain ⟨e', he'⟩ := process_error_of_rejected check outs () sv ⟨e, hmem⟩
   exact ⟨process_error_not_visible check outs () sv e' he', e', he'⟩
 
-/-- consumer-side continuity check on `[start, stop)` pairs, as `get_iter` applies it to the target -/
+/-- PARTIAL (single_thread), the general statement for the gap kind: the stream of an ordinary run
+with some boundary that is not a meeting point, processed in the single-thread order with
+`continuity_check` as the consumer's check (as `get_iter` applies it to the target), ends with the
+`ValueError`, the saver is closed with the exception recorded — the target is NOT visible as valid
+— and what the caller got is the break-free prefix of `gap_or_overlap_in_target_rejected`. -/
+theorem gap_in_target_not_stored_single_thread_partial (rid : String) (cs : List Chunk) (sv : Saver Chunk)
+    (hp : plainStream rid cs = true) (hb : hasBreak cs = true) :
+    (process contStep {} (cs.map Except.ok) sv).1.visible = false ∧
+    (process contStep {} (cs.map Except.ok) sv).2.2 = some .valueError ∧
+    (process contStep {} (cs.map Except.ok) sv).2.1 = (targetStream cs).1 := by
+  have heq := process_contStep_eq_targetStream cs {} sv
+  rw [Prod.ext_iff] at heq
+  have herr : (process contStep {} (cs.map Except.ok) sv).2.2 = some .valueError := by
+    rw [heq.2]; exact (gap_or_overlap_in_target_rejected rid cs hp hb).1
+  exact ⟨process_error_not_visible contStep _ {} sv _ herr, herr, heq.1⟩
+
+/-- consumer-side continuity check on bare `[start, stop)` pairs (what the driver op `c12.process`
+and the check component `saver_protocol` use) -/
 def contCheck (last : Option Int) (c : Int × Int) : Except Err (Option Int) :=
   match last with
   | some e => if c.1 = e then .ok (some c.2) else .error .valueError
   | none => .ok (some c.2)
 
-/-- what is guaranteed for a target with a gap under the single-thread order of events
-(saver first, then the consumer's check, any exception closes the savers with it) -/
-theorem gap_in_target_not_stored_single_thread :
+/-- one concrete stream with a gap under the single-thread order of events -/
+example :
     (process contCheck none [.ok (0, 10), .ok (10, 20), .ok (21, 30), .ok (30, 40)] ({} : Saver (Int × Int))).1.visible = false := by
   decide +kernel
+
+example : plainStream "r0" gapStream = true ∧ hasBreak gapStream = true := by decide
 
 /-- an eager pipeline lets the saver run ahead of the consumer: it sees the whole stream and its
 regular end before the consumer has checked anything -/
@@ -373,10 +398,10 @@ def processEager (check : σ → α → Except Err σ) (st : σ) (outs : List (E
     let sv := (good.foldl Saver.save sv).close
     (sv, (process check st outs ({} : Saver α)).2.2)
 
-/-- OPEN FINDING F3 (not guaranteed, `rejected_not_stored` holds for `process` only): with the
-saver ahead of the consumer, a target with a gap is stored as valid although the caller gets the
-`ValueError`.  Reproduced on the real threaded_mailbox processor (eager mode with a slow consumer;
-lazy mode through the D6 run-ahead). -/
+/-- OPEN FINDING F3 / D21 (why the three theorems above are `_partial`): with the saver ahead of
+the consumer, a target with a gap is stored as valid although the caller gets the `ValueError`.
+Reproduced on the real threaded_mailbox processor in eager mode (`allow_lazy=False` or
+`max_workers > 1`) with a consumer slower than the pipeline. -/
 theorem gap_in_target_stored_eager_counterexample :
     let r := processEager contCheck none [.ok (0, 10), .ok (10, 20), .ok (21, 30), .ok (30, 40)] ({} : Saver (Int × Int))
     r.1.visible = true ∧ r.2 = some .valueError := by
